@@ -13,7 +13,8 @@ def run(ctx):
     ctx.assumptions = ["documented precondition of partial revert is an enabling condition (PartialOK)"]
     q = ctx.quick
     plan = [
-        ("G1", "rev", dict(objs=(1,), modes=("none", "ref"), max_ops=8 if q else 10, nonfin=("inf", "nan")), True),
+        ("G1", "rev", dict(objs=(1,), modes=("none", "ref"), max_ops=8 if q else 10, nonfin=("inf", "nan")),
+         ["Assign", "Put", "Read", "RevertFull", "RevertPartial", "SetMode"]),
         ("G2", "rev", dict(objs=(1,), modes=("none", "ref"), max_ops=6 if q else 7, nonfin=("inf",)), False),
         ("G4", "rev", dict(objs=(1,), modes=("none", "ref"), max_ops=5 if q else 7, nonfin=("inf",)), False),
         ("G2", "nan2", dict(objs=(1,), modes=("ref",), max_ops=5 if q else 6, nonfin=("inf", "nan")), False),
